@@ -245,4 +245,42 @@ def lrun (G : Lock) (S : Nat → Lock) (s : LState) : List LEv → Option LState
     | none => none
     | some s' => lrun G S s' es
 
+/-! ## Reader/writer mutexes (sync.RWMutex)
+
+  The exclusive-mutex semantics above has at most one holder per mutex; a `sync.RWMutex` admits several
+  readers.  Separate small semantics; the static rule side is in the translator (a mutex held through
+  `RLock` is a common lock for read accesses only). -/
+
+
+inductive RWEv where
+  | wacq (t : Nat) (m : Nat × Nat)
+  | wrel (t : Nat) (m : Nat × Nat)
+  | racq (t : Nat) (m : Nat × Nat)
+  | rrel (t : Nat) (m : Nat × Nat)
+deriving DecidableEq, Repr
+
+/-- per mutex: the writer (if any) and the readers currently holding it -/
+structure RWState where
+  writer : Nat × Nat → Option Nat
+  readers : Nat × Nat → List Nat
+
+def RWState.init : RWState := ⟨fun _ => none, fun _ => []⟩
+
+def rwstep (s : RWState) : RWEv → Option RWState
+  | .wacq t m => if s.writer m = none ∧ s.readers m = [] then
+      some { s with writer := fun m' => if m' = m then some t else s.writer m' } else none
+  | .wrel t m => if s.writer m = some t then
+      some { s with writer := fun m' => if m' = m then none else s.writer m' } else none
+  | .racq t m => if s.writer m = none then
+      some { s with readers := fun m' => if m' = m then t :: s.readers m' else s.readers m' } else none
+  | .rrel t m => if t ∈ s.readers m then
+      some { s with readers := fun m' => if m' = m then (s.readers m').erase t else s.readers m' } else none
+
+def rwrun (s : RWState) : List RWEv → Option RWState
+  | [] => some s
+  | e :: es => match rwstep s e with
+    | none => none
+    | some s' => rwrun s' es
+
+
 end OllamaVerif.Lockset
